@@ -166,7 +166,56 @@ def go_words(p):
     return f, out
 
 
+def relevant(effects):
+    """effects that touch the limits or the line's stream (a flag of the loop itself, `pending = false`, is not one)"""
+    return [e for e in effects if not re.fullmatch(r'\(\w+=\d+\)', e)]
+
+
 def fills(effects, field, index=None):
     """the effects are exactly one extraction from the line's stream into limits.<field>[index]"""
     tgt = re.escape(field) + (r'\[%d\]' % index if index is not None else '')
+    effects = relevant(effects)
     return len(effects) == 1 and re.fullmatch(r'\(\w+>>\w+\.%s\)' % tgt, effects[0]) is not None
+
+
+def searchmoves_loop(p):
+    """the loop that stores the searchmoves words: (function, loop node, [words of a move the loop would stop at]). Its condition
+    may test the stream and the word; a test of the word is evaluated (constant evaluation of its string handling) on spellings
+    of moves the engine itself prints: a plain move, a promotion, a castling move in coordinate form."""
+    from rules.streval import StrEval, Unknown as SU
+    f = p.fn('engine::Uci::go_command')
+    inner = [n for n in f.all_nodes() if n['k'] in ('WhileStmt', 'ForStmt', 'DoStmt') and
+             any(a['k'] in ('WhileStmt', 'ForStmt') for a in f.ancestors(n)) and
+             any((x.get('callee') or {}).get('n') == 'engine::Position::parse_uci' for x in walk(n))]
+    if len(inner) != 1:
+        raise AnalysisBroken('UCITAB: go_command stores searchmoves in %d loops' % len(inner))
+    loop = inner[0]
+    cond = kids(loop)[0] if loop['k'] == 'WhileStmt' else (loop.get('ch') or [None] * 3)[2]
+
+    def leaves(c):
+        c0 = strip_casts(c)
+        while c0 is not None and c0['k'] in ('ParenExpr', 'ExprWithCleanups', 'CXXStaticCastExpr', 'CXXFunctionalCastExpr', 'ImplicitCastExpr',
+                                              'CXXMemberCallExpr') and \
+                (c0['k'] != 'CXXMemberCallExpr' or short((c0.get('callee') or {}).get('n', '')).startswith('operator bool')) and kids(c0):
+            c0 = strip_casts(kids(c0)[-1] if c0['k'] != 'CXXMemberCallExpr' else kids(kids(c0)[0])[0])
+        if c0['k'] == 'BinaryOperator' and c0.get('op') in ('&&', '||'):
+            return leaves(kids(c0)[0]) + leaves(kids(c0)[1])
+        if c0['k'] == 'BinaryOperator' and c0.get('op') == '=':
+            return leaves(kids(c0)[1])
+        return [c0]
+    stops = []
+    se = StrEval(p)
+    for lf in leaves(cond):
+        txt = [x for x in walk(lf)]
+        if any(x.get('op') == '>>' for x in txt):
+            continue                # the extraction itself: the loop ends with the line
+        if not any(short((x.get('ref') or {}).get('n', '')) == 'token' for x in txt):
+            raise AnalysisBroken('UCITAB: the searchmoves loop at %s also ends on a condition that is neither the stream nor the word' % f.loc(loop))
+        for w in ('e2e4', 'a7a8q', 'h2h1n', 'e1g1'):
+            try:
+                v = se.ev(f, lf, {'token': w})
+            except SU as e_:
+                raise AnalysisBroken('UCITAB: the word test of the searchmoves loop at %s is not evaluable (%s)' % (f.loc(loop), e_))
+            if not se.truth(v):
+                stops.append(w)
+    return f, loop, stops
